@@ -212,9 +212,11 @@ class Body:
 def callee_of(t):
     """Return the fn-ref dict of a call terminator, or None for indirect calls."""
     f = t["f"]
-    k = f.get("k")
+    k = f.get("k") if f else None
     if k and "fn" in k:
         return k["fn"]
+    if t.get("fdef"):
+        return t["fdef"]     # callee held in a local of fn-item type (shim bodies spliced in by INLINE)
     return None
 
 
